@@ -1,3 +1,4 @@
+import TemplVerif.Generated.Skeletons
 import TemplVerif.Model.SourceMap
 import TemplVerif.Proofs.Pos
 import TemplVerif.Proofs.Symbols
@@ -76,5 +77,39 @@ example :
     let b : Rng × Rng := (⟨⟨190, 19, 22⟩, ⟨211, 19, 43⟩⟩, ⟨⟨3575, 103, 0⟩, ⟨4619, 131, 0⟩⟩)
     symTarget (addSymbols [a, b]) 19 0 = some a.2 ∧ symTarget (addSymbols [a, b]) 19 22 = some b.2 ∧
     symSource (addSymbols [a, b]) 75 0 = some a.1 := by decide
+
+-- BEGIN transcription pins (written by tools/mkpins.py)
+/-- T1, transcription pins: the control structure and calls (extract/skeleton.go) of the functions whose models
+    were written by hand are the ones the models were transcribed from:
+      generator/rangewriter.go RangeWriter.CodeHash
+      generator/rangewriter.go RangeWriter.Write
+      generator/rangewriter.go RangeWriter.WriteIndent
+      generator/rangewriter.go RangeWriter.WriteStringLiteral
+      generator/rangewriter.go RangeWriter.closeLiteral
+      generator/rangewriter.go RangeWriter.write
+      generator/rangewriter.go RangeWriter.writeErrorHandler
+      parser/v2/sourcemap.go SourceMap.Add
+      parser/v2/sourcemap.go SourceMap.AddSymbolRange
+      parser/v2/sourcemap.go SourceMap.SourcePositionFromTarget
+      parser/v2/sourcemap.go SourceMap.SymbolSourceRangeFromTarget
+      parser/v2/sourcemap.go SourceMap.SymbolTargetRangeFromSource
+      parser/v2/sourcemap.go SourceMap.TargetPositionFromSource
+    A change of what one of them calls or how it branches breaks this theorem; the check then searches for a
+    failing input and reports either that or `no-failing-input-found`. -/
+theorem C07_transcription_pinned :
+    Generated.skel_rw_CodeHash = 792772746908027308 ∧
+    Generated.skel_rw_Write = 17538734659151182601 ∧
+    Generated.skel_rw_WriteIndent = 17214375874521016690 ∧
+    Generated.skel_rw_WriteStringLiteral = 8784805393440092172 ∧
+    Generated.skel_rw_closeLiteral = 14545311566512644173 ∧
+    Generated.skel_rw_write = 8854243379502433650 ∧
+    Generated.skel_rw_writeErrorHandler = 15326098415425532206 ∧
+    Generated.skel_sm_Add = 1288391241873993416 ∧
+    Generated.skel_sm_AddSymbolRange = 7781495704052865687 ∧
+    Generated.skel_sm_SourcePositionFromTarget = 5866908265814706828 ∧
+    Generated.skel_sm_SymbolSourceRangeFromTarget = 9449607515031355420 ∧
+    Generated.skel_sm_SymbolTargetRangeFromSource = 9449607515031355420 ∧
+    Generated.skel_sm_TargetPositionFromSource = 9449607515031355420 := by decide
+-- END transcription pins
 
 end TemplVerif.Props.C07
